@@ -153,6 +153,16 @@ int main(void)
     enum xcm_attr_type want;
     errno = 0;
     int rc;
+#ifdef FMT
+    /* the formatted variants (ut_vasprintf is a copying stub: the name is the format string itself) */
+    switch (which) {
+    case 0: want = xcm_attr_type_bool; rc = xcm_attr_getf_bool(&sock, &vb, name); break;
+    case 1: want = xcm_attr_type_int64; rc = xcm_attr_getf_int64(&sock, &vi, name); break;
+    case 2: want = xcm_attr_type_double; rc = xcm_attr_getf_double(&sock, &vd, name); break;
+    case 3: want = xcm_attr_type_str; rc = xcm_attr_getf_str(&sock, vs, sizeof(vs), name); break;
+    default: want = xcm_attr_type_bin; rc = xcm_attr_getf_bin(&sock, vbin, sizeof(vbin), name); break;
+    }
+#else
     switch (which) {
     case 0: want = xcm_attr_type_bool; rc = xcm_attr_get_bool(&sock, name, &vb); break;
     case 1: want = xcm_attr_type_int64; rc = xcm_attr_get_int64(&sock, name, &vi); break;
@@ -160,6 +170,7 @@ int main(void)
     case 3: want = xcm_attr_type_str; rc = xcm_attr_get_str(&sock, name, vs, sizeof(vs)); break;
     default: want = xcm_attr_type_bin; rc = xcm_attr_get_bin(&sock, name, vbin, sizeof(vbin)); break;
     }
+#endif
     int e = errno;
     if (rc >= 0) {
 	CHECK(value_node && want == ATYPE, "C10: a typed getter succeeds only for an attribute of its own type");
